@@ -697,6 +697,64 @@ def run_outer(case: tuple, seed: int) -> tuple[list, tuple]:
         w.close()
 
 
+# ---------------------------------------------------------------------------------------------------------------------
+# destination histories: what an exit socket remembers about one destination must not decide about the next
+# ---------------------------------------------------------------------------------------------------------------------
+HIST_DESTS = [("null.example", 5), ("null.example", 0), ("good.example", 80), ("good.example", 0), ("0.0.0.0", 5),
+              ("9.9.9.9", 99)]
+HIST_FINAL = {("null.example", 5): ("0.0.0.0", 5), ("null.example", 0): None, ("good.example", 80): ("5.6.7.8", 80),
+              ("good.example", 0): ("5.6.7.8", 0), ("0.0.0.0", 5): ("0.0.0.0", 5), ("9.9.9.9", 99): ("9.9.9.9", 99)}
+
+
+def history_cases(thorough: bool) -> list[tuple]:
+    import itertools  # noqa: PLC0415
+    n = len(HIST_DESTS)
+    cases = [tuple(c) for c in itertools.product(range(n), repeat=2)]
+    if thorough:
+        cases += [tuple(c) for c in itertools.product(range(n), repeat=3)]
+    return cases
+
+
+def run_history(case: tuple, seed: int) -> tuple[list, tuple]:
+    """One exit socket (all exit flags), packets to the destinations of `case` one after the other on one circuit."""
+    viol: list = []
+    w = TunnelWorld(("c06-history", seed), {"O": set(PLAIN), "X": set(FLAGSETS[7])}, key_offset=seed % 8)
+    try:
+        w.loop.resolver.update(RESOLVER)
+        c = w.build_circuit("O", ["X"])
+        if c.state != CIRCUIT_STATE_READY:
+            return [("harness:history-setup", "circuit not ready")], ("harness",)
+        data0 = outer_payloads(w.ov["X"].get_prefix())["dht-ping"]
+        seq = [HIST_DESTS[i] for i in case]
+        trail = []
+        for k, dest in enumerate(seq):
+            data = data0
+            before = [(d, tuple(a)) for t in w.loop.transports for d, a in t.sent]
+            w.send_out("O", c, dest, data)
+            w.flush()
+            after = [(d, tuple(a)) for t in w.loop.transports for d, a in t.sent]
+            new = after[len(before):]
+            desc = f"packets to {seq[:k + 1]} one after the other on one circuit (all exit flags set)"
+            for d, a in new:
+                if ref.is_null_address(a):
+                    viol.append(("null-destination:after-history", f"{desc}: emission towards {a}"))
+            want = HIST_FINAL[dest]
+            mine = [a for d, a in new]
+            if want is None and mine:
+                viol.append(("null-destination:after-history", f"{desc}: the last packet left towards {mine}"))
+            elif want is not None and mine != [want]:
+                viol.append(("history:allowed-packet-misdirected", f"{desc}: the last packet (BitTorrent-shaped, allowed) "
+                                                                   f"left towards {mine}, expected exactly {want}"))
+            trail.append(tuple(mine))
+        return viol, ("ran", tuple(trail))
+    finally:
+        w.close()
+
+
+def run_history_cases(chunk: list) -> list:
+    return [(tuple(c), *run_history(tuple(c), _SEED)) for c in chunk]
+
+
 def run_outer_cases(chunk: list) -> list:
     out = []
     for case in chunk:
@@ -1086,11 +1144,13 @@ def run(ctx: core.Ctx) -> core.Report:
 
     # configuration routes and the flag-change window (same bookkeeping: sorted cases, first case per key is canonical)
     ccases, wcases = config_cases(ctx.thorough), window_cases(ctx.thorough)
-    extra_obs: dict[str, set] = {"config": set(), "window": set()}
-    for layer, fn, lcases in (("config", run_config_cases, ccases), ("window", run_window_cases, wcases)):
+    hcases = history_cases(ctx.thorough)
+    extra_obs: dict[str, set] = {"config": set(), "window": set(), "history": set()}
+    for layer, fn, lcases in (("config", run_config_cases, ccases), ("window", run_window_cases, wcases),
+                              ("history", run_history_cases, hcases)):
         lres = core.pmap(fn, lcases, ctx.jobs, chunk=8)
         for case, v, obs in sorted(lres, key=lambda r: tuple(-1 if x is None else x for x in r[0])):
-            extra_obs[layer].add(obs[1:] if layer == "window" else obs[2:])
+            extra_obs[layer].add(obs[1:] if layer in ("window", "history") else obs[2:])
             for key, what in v:
                 if key not in outer_viols:
                     outer_viols[key] = (what, {"layer": layer, "case": list(case), "seed": _SEED})
@@ -1104,8 +1164,9 @@ def run(ctx: core.Ctx) -> core.Report:
     emitted_classes = [o for o in outcomes if o[4]]
     cov = {
         "evaluations": inner_evals + len(cases) + len(ccases) * 2 * len(CONFIG_PAYLOADS) * 3
-        + len(wcases) * len(WINDOW_BATCH_A + WINDOW_BATCH_B),
-        "distinct_nontrivial": len(outcomes) + len(outer_obs) + len(extra_obs["config"]) + len(extra_obs["window"]),
+        + len(wcases) * len(WINDOW_BATCH_A + WINDOW_BATCH_B) + sum(len(c) for c in hcases),
+        "distinct_nontrivial": len(outcomes) + len(outer_obs) + len(extra_obs["config"]) + len(extra_obs["window"])
+        + len(extra_obs["history"]),
         "rule": "one evaluation = one packet driven through the real TunnelExitSocket of a live exit node under one flag set "
                 "(inner layer: sendto / transport protocol datagram_received called directly; outer layer: one fresh "
                 "world, packet sent through a real 1- or 2-hop circuit and injected from outside); distinct_nontrivial = "
@@ -1213,6 +1274,9 @@ def replay(ctx: core.Ctx, data) -> list:  # noqa: ANN001
         return [core.Violation(k, w) for k, w in v]
     elif data["layer"] == "window":
         v, _ = run_window(tuple(data["case"]), seed)
+        return [core.Violation(k, w) for k, w in v]
+    elif data["layer"] == "history":
+        v, _ = run_history(tuple(data["case"]), seed)
         return [core.Violation(k, w) for k, w in v]
     else:
         v, _ = run_outer(tuple(data["case"]), seed)
